@@ -32,9 +32,28 @@ def plan(tier, seed):
     return ac.std_plan(tier, quick_budget=75, thorough_budget=700)
 
 
-def ref_cat_disorder(alignment, dissim, category):
+def _pos_formula(u1, u2, delta):
+    return ((abs(u1.segment.start - u2.segment.start) + abs(u1.segment.end - u2.segment.end)) /
+            ((u1.segment.end - u1.segment.start) + (u2.segment.end - u2.segment.start))) ** 2 * delta
+
+
+def _cat_value(dissim, dspec, u1, u2, delta):
+    """Categorical dissimilarity of two units from the documented formula where there is an exact one (absolute,
+    precomputed: with the COMBINED dissimilarity's delta_empty), from the component's d() otherwise."""
+    cat = (dspec or {}).get("cat") if dspec else None
+    kind = "absolute" if (dspec is not None and cat is None) else (cat or {}).get("kind")
+    if kind == "absolute":
+        return (0.0 if u1.annotation == u2.annotation else 1.0) * delta
+    if kind == "precomputed":
+        cats = sorted(cat["cats"])
+        return float(cases.f32(cat["matrix"][cats.index(u1.annotation)][cats.index(u2.annotation)])) * delta
+    return float(dissim.categorical_dissim.d(u1, u2))
+
+
+def ref_cat_disorder(alignment, dissim, category, dspec=None):
     """Independent weighted mean.  Returns (value or None if total weight is 0, n real-real pairs counted,
-    n unit/empty pairs counted)."""
+    n unit/empty pairs counted).  The positional term is evaluated from the documented formula in float64 with the
+    combined dissimilarity's delta_empty (not through the component object)."""
     delta = float(dissim.delta_empty)
     num = 0.0
     den = 0.0
@@ -57,15 +76,15 @@ def ref_cat_disorder(alignment, dissim, category):
                     den += delta
                     continue
                 rr += 1
-                w = (1.0 / (k - 1)) * max(0.0, 1.0 - float(dissim.alpha) * float(dissim.positional_dissim.d(u1, u2)))
-                num += w * float(dissim.categorical_dissim.d(u1, u2))
+                w = (1.0 / (k - 1)) * max(0.0, 1.0 - float(dissim.alpha) * _pos_formula(u1, u2, delta))
+                num += w * _cat_value(dissim, dspec, u1, u2, delta)
                 den += w
     if den == 0:
         return None, rr, ue
     return num / den, rr, ue
 
 
-def check_catdis(ctx, alignment, dissim, category, where):
+def check_catdis(ctx, alignment, dissim, category, where, dspec=None):
     ctx.count("M-CATDIS")
     try:
         got = alignment.gamma_k_disorder(dissim, category)
@@ -73,7 +92,7 @@ def check_catdis(ctx, alignment, dissim, category, where):
         ctx.fail_exc(f"{where}:gamma_k_disorder-raises:{type(e).__name__}", e, monitor="M-CATDIS")
         return None
     got = float(got)
-    ref, rr, ue = ref_cat_disorder(alignment, dissim, category)
+    ref, rr, ue = ref_cat_disorder(alignment, dissim, category, dspec)
     ctx.observe("catdis_shape", f"rr{'+' if rr else '0'}/ue{'+' if ue else '0'}/{'cat' if category is not None else 'all'}")
     if ref is None:
         if not math.isfinite(got):
@@ -118,7 +137,7 @@ def check_disorder_case(ctx, case):
     else:
         al = cases.build_alignment(cspec, case["alignment"], continuum=continuum if case.get("attach", True) else None)
     for c in cats:
-        check_catdis(ctx, al, dissim, c, src)
+        check_catdis(ctx, al, dissim, c, src, dspec)
     if case.get("edit") and src == "hand" and len(al.unitary_alignments) >= 2:
         # history on the SAME UnitaryAlignment objects: measured above, now edited through the public n_tuple setter
         # (a unit moves from one unitary alignment into an empty slot of another), then measured again
@@ -140,7 +159,7 @@ def check_disorder_case(ctx, case):
         if moved:
             ctx.count("M-CATDIS-AFTER-EDIT")
             for c in cats:
-                check_catdis(ctx, al, dissim, c, "hand-after-n_tuple-edit")
+                check_catdis(ctx, al, dissim, c, "hand-after-n_tuple-edit", dspec)
 
 
 def check_gamma_case(ctx, case):
@@ -258,6 +277,11 @@ def run(ctx):
         src = rng.choice(["best", "soft", "hand", "hand", "hand"])
         case = {"type": "disorder", "continuum": cspec, "dissim": dspec, "source": src}
         if src == "hand":
+            if rng.random() < 0.15:      # epoch-scale coordinates: d() is a float64 computation, it must stay exact there
+                off = rng.choice([1.7e9, 2.0 ** 31, 86400.0 * 365])
+                cspec = {"ann": {a: [[off + u[0], off + u[1], u[2]] for u in us] for a, us in cspec["ann"].items()}, "family": "epoch-offset"}
+                case["continuum"] = cspec
+                ctx.observe("coordinates", "epoch-scale")
             case["alignment"] = cases.random_partition_alignment(rng, cspec, p_join=rng.choice([0.1, 0.5, 0.9]))
             case["attach"] = rng.random() < 0.7
             case["edit"] = rng.random() < 0.5
